@@ -36,6 +36,15 @@ def run(ctx):
     ctx.sample(vlib.nth_line(files[0], 1))
     ctx.sample(vlib.nth_line(files[0], 2))
     ctx.absorb(verdicts, files, charfam.describe_char)
+    # without any knowledge of how the code reads the source: the character at every position, sampled under a pseudo-random byte stream
+    from checks import wlfam
+    cj = lambda n: [0x4E00 + i for i in range(n)]
+    def mc(L, **kw):
+        base = dict(len=L, allow=0, require=0, exclude=0, allowChars=[], requireSets=[], excludeChars=[])
+        base.update(kw)
+        return dict(kind="char", char=base, maxTrials=0, failRateOne=0, mode="paths", paths=0, maxLeaves=0, tag="marg-char-%d-%s" % (L, len(kw.get("allowChars", [])) or kw.get("allow")))
+    wlfam.run_marg(ctx, [mc(24, allowChars=[ord(x) for x in "0123456789abcdef"]), mc(20, allow=15, exclude=16), mc(40, allow=7), mc(24, allow=7, allowChars=[ord("-"), ord("_")]),
+                         mc(70, allowChars=[ord("a"), ord("b")]), mc(8, allowChars=cj(256)), mc(33, allowChars=cj(4)), mc(12, allowChars=cj(8)), mc(10, allow=4)], "c02", "C02")
     # the index -> character step is only uniform if the draw itself is, for the bounds these recipes use
     drawfam.draw_conformance(ctx, charfam.bounds_seen(files), "character recipes")
     if too_few and not ctx.violations:    # (decided only now: a sampler that no longer reads whole words is the draw conformance's business)
